@@ -22,6 +22,7 @@ fn note_panic<T>(ctx: &mut Ctx, entry: &str, out: &Out<T>, case: &Value) {
 
 /// every public entry point that takes a string from the network, on one string
 fn all_entries(ctx: &mut Ctx, s: &str, case: &Value, with_model: bool) {
+    real::set_current(case);
     ctx.report.evaluations += 1;
     let dec = keys::dec_key(0, 0);
     let v = validation();
@@ -55,6 +56,7 @@ fn all_entries(ctx: &mut Ctx, s: &str, case: &Value, with_model: bool) {
 }
 
 fn small_entries(ctx: &mut Ctx, s: &str, case: &Value) {
+    real::set_current(case);
     let r = real::guard(|| HashAlgorithm::try_from(s).map(|_| ()));
     note_panic(ctx, "HashAlgorithm::try_from", &r, case);
     let r = real::guard(|| sdjwt::parse_yaml(s).map(|_| ()));
